@@ -314,3 +314,19 @@ Definition p_nc' := match fst cs_nc' with Some lp => snd lp | None => [] end.
 Example ex_intids_no_collision : length (vnodes (view true true nc')) = 2 /\ length (vnodes (view true true (intids_net nc'))) = 3 /\
   geqb (canon_graph (view true true (intids_net nc')) p_nc') (canon_graph (view true true (intids_net nc)) p_nc) = true.
 Proof. vm_compute. auto. Qed.
+
+(** C18_attr_invariant_partial / C18_attr_count_lower_partial: the premises hold for the example pair (g1, g2, fx) with the label
+    table lt1, and under the selection (bipartite; stoich) the swap A <-> B, r_1 <-> r_2 preserves the selected attributes *)
+From SK Require Import proof.C18_AttrEquiv.
+Example ex_attr_invariant : (forall x y, fx x = fx y -> x = y) /\ wf g1 /\ geq g2 (relabel fx g1) /\
+  length (snd (canon_searchA g1 lt1 [NBip] [EStoich])) = 2 /\ length (snd (canon_searchA g2 (relab_tab fx lt1) [NBip] [EStoich])) = 2 /\
+  length (snd (canon_searchA g1 lt1 [NLabel; NKind] [ERole])) = 1.
+Proof. split; [exact fx_inj|]. split; [exact wf_g1|]. split; [exact geq_g2|]. vm_compute. auto. Qed.
+Example ex_attr_count_lower : exists s, is_autG g1 (nvA g1 lt1 [NBip]) (evA [EStoich]) s /\ s 0%N = 1%N.
+Proof.
+  destruct ex_aut_count_thm as (s & Hs & E). exists s. split.
+  - destruct Hs as (H1 & H2 & H3 & H4). repeat split; auto.
+    + intros v Hv. unfold nvA. simpl. rewrite H3 by auto. reflexivity.
+    + intros u v Hu Hv. rewrite H4 by auto. reflexivity.
+  - assert (E4 : nth 4 leaf_b 0%N = nth 4 (map s p1) 0%N) by (rewrite E; reflexivity). rewrite p1_eq in E4. vm_compute in E4. auto.
+Qed.
